@@ -14,12 +14,92 @@ From TLV Require Import Base.Shape Base.PyList Base.Tensor Base.BigSum Base.Ops 
 Import ListNotations.
 Local Open Scope R_scope.
 
-(* Eckart-Young (Frobenius norm), stated for an SVD answer meeting the full contract *)
-Definition eckart_young_stmt : Prop :=
-  forall (M : tensor R) (m n r : nat) (a : @svdans R) (P Q : nat -> nat -> R),
-    svd_full_contract M m n r a ->
+(* singular values as LAPACK returns them: non-negative and non-increasing *)
+Definition sorted_nonneg (Sv : list R) : Prop :=
+  forall l l', (l <= l')%nat -> (l' < length Sv)%nat -> 0 <= nth l' Sv 0 <= nth l Sv 0.
+
+(* the full contract TOGETHER WITH the ordering of S: without the ordering "the tail S[r:]" is not the set of the
+   smallest singular values and the Eckart-Young statement below would be false (M = diag(1,2), S = [1;2], r = 1) *)
+Definition svd_sorted_contract (M : tensor R) (m n r : nat) (a : @svdans R) : Prop :=
+  svd_full_contract M m n r a /\ sorted_nonneg (snd3 a).
+
+(* Eckart-Young (Frobenius norm) for ONE matrix and one SVD answer of it: no product P Q with inner dimension r is closer
+   to M than the discarded tail *)
+Definition ey_for (M : tensor R) (m n r : nat) (a : @svdans R) : Prop :=
+  forall (P Q : nat -> nat -> R),
     tail2 Rops r (snd3 a) <=
     sumR m (fun i => sumR n (fun c => sq Rops (gR M [i; c] - sumR r (fun b => P i b * Q b c)))).
+
+(* the classical theorem, stated for every SVD answer meeting the full contract with sorted singular values *)
+Definition eckart_young_stmt : Prop :=
+  forall (M : tensor R) (m n r : nat) (a : @svdans R), svd_sorted_contract M m n r a -> ey_for M m n r a.
+
+(* ------------------------------------------------------------------ the hypothesis is satisfiable: instances of the statement that ARE proved *)
+(* r = 0 (nothing kept): equality, |M|^2 = sum of all squared singular values *)
+Lemma eckart_young_rank0 M m n a : svd_sorted_contract M m n 0 a -> ey_for M m n 0 a.
+Proof.
+  intros [Hc _] P Q. destruct a as [[U Sv] V]. cbn [snd3].
+  pose proof (disc_tail Rops Rops_ring _ _ _ _ _ _ _ (svd_full_contract_step_full _ _ _ _ _ Hc)) as Hd.
+  destruct (svd_interface Rops (U, Sv, V) 0) as [[U' S'] V']. rewrite <- Hd. unfold disc. apply Req_le. reflexivity.
+Qed.
+
+(* everything kept: the tail is empty *)
+Lemma eckart_young_no_discard M m n a : svd_sorted_contract M m n (length (snd3 a)) a -> ey_for M m n (length (snd3 a)) a.
+Proof.
+  intros _ P Q. replace (tail2 Rops (length (snd3 a)) (snd3 a)) with 0.
+  - apply sumR_nonneg. intros. apply sumR_nonneg. intros. apply sq_nonneg.
+  - symmetry. unfold tail2. apply (fsumn_zero Rops Rops_ring). intros l Hl.
+    destruct (Nat.leb_spec (length (snd3 a)) l); [lia | reflexivity].
+Qed.
+
+(* a genuinely truncating instance: M = diag(2, 1) with its SVD (I, [2; 1], I), one triplet kept: the contract holds
+   (sorted S) and NO matrix p q^T is closer to M than the discarded singular value 1 *)
+Definition ey_M : tensor R := mk [2; 2]%nat [2; 0; 0; 1].
+Definition ey_a : @svdans R := (mk [2; 2]%nat [1; 0; 0; 1], [2; 1], mk [2; 2]%nat [1; 0; 0; 1]).
+
+Lemma ey_instance_contract : svd_sorted_contract ey_M 2 2 1 ey_a.
+Proof.
+  split.
+  - unfold svd_full_contract, ey_a, ey_M. cbn [length]. split; [lia|]. split; [reflexivity|]. split; [reflexivity|].
+    split; [|split].
+    + intros j l Hj Hl. assert (Ej : j = 0%nat \/ j = 1%nat) by lia. assert (El : l = 0%nat \/ l = 1%nat) by lia.
+      destruct Ej as [-> | ->]; destruct El as [-> | ->]; unfold fsumn, g, get; cbn; lra.
+    + intros j l Hj Hl. assert (Ej : j = 0%nat \/ j = 1%nat) by lia. assert (El : l = 0%nat \/ l = 1%nat) by lia.
+      destruct Ej as [-> | ->]; destruct El as [-> | ->]; unfold fsumn, g, get; cbn; lra.
+    + intros i c Hi Hc. assert (Ei : i = 0%nat \/ i = 1%nat) by lia. assert (Ec : c = 0%nat \/ c = 1%nat) by lia.
+      destruct Ei as [-> | ->]; destruct Ec as [-> | ->]; unfold fsumn, g, get; cbn; lra.
+  - unfold sorted_nonneg, ey_a. cbn [snd3 length]. intros l l' H1 H2.
+    assert (El' : l' = 0%nat \/ l' = 1%nat) by lia. destruct El' as [-> | ->].
+    + assert (l = 0%nat) by lia. subst. cbn. lra.
+    + assert (El : l = 0%nat \/ l = 1%nat) by lia. destruct El as [-> | ->]; cbn; lra.
+Qed.
+
+Lemma ey_instance_holds : ey_for ey_M 2 2 1 ey_a.
+Proof.
+  intros P Q.
+  unfold tail2, ey_a, ey_M, fsumn, g, get, sq. cbn.
+  set (p0 := P 0%nat 0%nat). set (p1 := P 1%nat 0%nat). set (q0 := Q 0%nat 0%nat). set (q1 := Q 0%nat 1%nat).
+  set (A00 := 2 - (0 + p0 * q0)). set (A01 := 0 - (0 + p0 * q1)).
+  set (A10 := 0 - (0 + p1 * q0)). set (A11 := 1 - (0 + p1 * q1)).
+  assert (Hid : (A00 * A00 + A01 * A01 + (A10 * A10 + A11 * A11) - 1) * (q0 * q0 + q1 * q1) =
+                3 * (q1 * q1) + (A00 * q0 + A01 * q1) * (A00 * q0 + A01 * q1) + (A10 * q0 + A11 * q1) * (A10 * q0 + A11 * q1))
+    by (unfold A00, A01, A10, A11; ring).
+  pose proof (Rle_0_sqr q0) as Hs0. pose proof (Rle_0_sqr q1) as Hs1. unfold Rsqr in Hs0, Hs1.
+  pose proof (Rle_0_sqr (A00 * q0 + A01 * q1)) as Hs2. pose proof (Rle_0_sqr (A10 * q0 + A11 * q1)) as Hs3.
+  unfold Rsqr in Hs2, Hs3.
+  set (Fm1 := A00 * A00 + A01 * A01 + (A10 * A10 + A11 * A11) - 1) in *.
+  set (sq_ := q0 * q0 + q1 * q1) in *.
+  assert (Hge : 0 <= Fm1 * sq_) by (rewrite Hid; lra).
+  destruct (Rle_lt_or_eq_dec 0 sq_ ltac:(unfold sq_; lra)) as [Hpos|Hz].
+  - destruct (Rle_or_lt 0 Fm1) as [Hok|Hneg].
+    + unfold Fm1 in Hok. lra.
+    + exfalso. assert (Hp : 0 < (- Fm1) * sq_) by (apply Rmult_lt_0_compat; lra).
+      replace (Fm1 * sq_) with (- ((- Fm1) * sq_)) in Hge by ring. lra.
+  - assert (E0 : q0 * q0 = 0) by (unfold sq_ in Hz; lra). assert (E1 : q1 * q1 = 0) by (unfold sq_ in Hz; lra).
+    apply Rmult_integral in E0. apply Rmult_integral in E1.
+    assert (Z0 : q0 = 0) by tauto. assert (Z1 : q1 = 0) by tauto.
+    unfold Fm1, A00, A01, A10, A11 in *. rewrite Z0, Z1. lra.
+Qed.
 
 (* ------------------------------------------------------------------ Tucker: the error is at least the discarded
    tail of EVERY mode unfolding (given Eckart-Young) *)
@@ -61,7 +141,7 @@ Theorem tucker_error_lower_partial X rank n_iter core fs Xh k Xk r a :
   tucker Rops svd X rank n_iter = Ok (core, fs) -> tucker_to_tensor Rops core fs = Ok Xh ->
   (k < length fs)%nat -> shape (nth k fs (mk [] [])) = [nth k (shape X) 0%nat; r] -> shape Xh = shape X ->
   unfold 0 X k = Ok Xk ->
-  svd_full_contract Xk (nth k (shape X) 0%nat) (prod (remove_nth k (shape X))) r a ->
+  svd_sorted_contract Xk (nth k (shape X) 0%nat) (prod (remove_nth k (shape X))) r a ->
   tail2 Rops r (snd3 a) <= terr2 Rops X Xh.
 Proof.
   intros WX Hpos Hk _ Hrec Hkf HU HsXh Hunf Hc.
@@ -88,8 +168,8 @@ Proof.
     rewrite nth_insert_same in Hlay by lia. rewrite remove_insert in Hlay by lia.
     fold s rs in Hlay. unfold ridx in Hlay at 1. rewrite ravel_unravel in Hlay by exact Hc'.
     exact Hlay. }
-  pose proof (eckart_young Xk nk nc r a (fun i b => gR U [i; b])
-                (fun b c => gR Y (insert_at k b (unravel rs c))) Hc) as Hey.
+  pose proof (eckart_young Xk nk nc r a Hc (fun i b => gR U [i; b])
+                (fun b c => gR Y (insert_at k b (unravel rs c)))) as Hey.
   eapply Rle_trans; [exact Hey|]. apply Req_le.
   unfold terr2. fold s. rewrite (sum_idx_split Rops Rops_ring k s) by exact Hk. fold rs nk.
   unfold sum_idx. fold nc. rewrite (fsumn_exchange Rops Rops_ring nk nc).
@@ -133,24 +213,20 @@ Section TTPartial.
 Variable svd : nat -> tensor R -> @svdans R.     (* the oracle of the run *)
 Variable svdX : nat -> tensor R -> @svdans R.    (* an SVD of the sequential unfoldings of X itself *)
 
-(* lower bound: given Eckart-Young, the error is at least the discarded tail of EVERY sequential unfolding of X
-   (at the bond dimension actually returned); no contract on the run's oracle is needed *)
-Theorem tt_error_lower_partial (eckart_young : eckart_young_stmt) X rank cores k aX :
-  tensor_train Rops svd X rank = Ok cores -> (0 < k)%nat -> (k < ndim X)%nat ->
-  svd_full_contract (x_unfolding X k) (prod (firstn k (shape X))) (prod (skipn k (shape X)))
-                    (nth 2 (shape (nth (k - 1) cores (mk [] []))) 0%nat) aX ->
+(* lower bound for ANY chain of cores with boundary bonds 1 (local form: Eckart-Young for the k-th sequential unfolding) *)
+Lemma chain_cores_error_lower_local X cores k aX :
+  bonds 1 cores 1 -> length cores = ndim X -> (0 < k)%nat -> (k < ndim X)%nat ->
+  ey_for (x_unfolding X k) (prod (firstn k (shape X))) (prod (skipn k (shape X)))
+         (nth 2 (shape (nth (k - 1) cores (mk [] []))) 0%nat) aX ->
   tail2 Rops (nth 2 (shape (nth (k - 1) cores (mk [] []))) 0%nat) (snd3 aX) <= tt_err2 Rops X cores.
 Proof.
-  intros Hrun Hk0 Hk Hc. unfold tensor_train in Hrun.
-  destruct (validate_tt_rank (ndim X) rank) as [rk|]; [|discriminate]. cbn [rbind] in Hrun.
-  destruct (chain_loop_bonds Rops svd _ _ _ _ _ _ _ Hrun) as [Hb Hlen].
+  intros Hb Hlen Hk0 Hk Hey0.
   set (s := shape X) in *. set (s1 := firstn k s) in *. set (s2 := skipn k s) in *.
-  unfold ndim in Hk. fold s in Hk.
+  unfold ndim in Hk, Hlen. fold s in Hk, Hlen.
   set (A := firstn k cores). set (B := skipn k cores).
   assert (Ecores : cores = A ++ B) by (symmetry; apply firstn_skipn).
   assert (HlA : length A = k) by (unfold A; rewrite firstn_length; lia).
   rewrite Ecores in Hb. destruct (bonds_app _ _ _ _ Hb) as (m & HbA & HbB).
-  (* m is the right bond of the (k-1)-th core *)
   assert (Hm : nth 2 (shape (nth (k - 1) cores (mk [] []))) 0%nat = m).
   { rewrite Ecores. rewrite app_nth1 by lia. rewrite <- HlA at 1.
     apply (bonds_last_right A 1%nat m); [|exact HbA]. intros E. rewrite E in HlA. simpl in HlA. lia. }
@@ -158,7 +234,7 @@ Proof.
   set (M := x_unfolding X k) in *.
   set (P := fun row b => chain Rops A 0 (unravel s1 row) b).
   set (Q := fun b col => chain Rops B b (unravel s2 col) 0).
-  pose proof (eckart_young M (prod s1) (prod s2) m aX P Q Hc) as Hey.
+  pose proof (Hey0 P Q) as Hey.
   eapply Rle_trans; [exact Hey|]. apply Req_le.
   unfold tt_err2. fold s. rewrite <- (firstn_skipn k s). fold s1 s2. rewrite sum_idx_app.
   unfold sum_idx. apply (fsumn_ext Rops). intros row Hrow. apply (fsumn_ext Rops). intros col Hcol.
@@ -172,6 +248,37 @@ Proof.
     rewrite (chain_app Rops Rops_ring A 1%nat m B 0%nat _ _ 0%nat HbA ltac:(lia)).
     + apply (fsumn_ext Rops). intros b _. reflexivity.
     + rewrite (inb_length _ _ Hi1). unfold s1. rewrite firstn_length. lia.
+Qed.
+
+(* lower bound: given Eckart-Young, the error is at least the discarded tail of EVERY sequential unfolding of X
+   (at the bond dimension actually returned); no contract on the run's own oracle is needed *)
+Theorem tt_error_lower_partial (eckart_young : eckart_young_stmt) X rank cores k aX :
+  tensor_train Rops svd X rank = Ok cores -> (0 < k)%nat -> (k < ndim X)%nat ->
+  svd_sorted_contract (x_unfolding X k) (prod (firstn k (shape X))) (prod (skipn k (shape X)))
+                    (nth 2 (shape (nth (k - 1) cores (mk [] []))) 0%nat) aX ->
+  tail2 Rops (nth 2 (shape (nth (k - 1) cores (mk [] []))) 0%nat) (snd3 aX) <= tt_err2 Rops X cores.
+Proof.
+  intros Hrun Hk0 Hk Hc. unfold tensor_train in Hrun.
+  destruct (validate_tt_rank (ndim X) rank) as [rk|]; [|discriminate]. cbn [rbind] in Hrun.
+  destruct (ndim X <=? 1); [discriminate|].
+  destruct (chain_loop_bonds Rops svd _ _ _ _ _ _ _ Hrun) as [Hb Hlen].
+  apply chain_cores_error_lower_local; auto.
+Qed.
+
+(* all hypotheses of the local lower bound discharged jointly on a concrete instance: X = diag(2, 1), the cores TT-SVD
+   returns for the request (1,1,1), the cut k = 1, the SVD (I, [2;1], I) of the unfolding: 1 <= error^2 (= 1) *)
+Example chain_cores_error_lower_nonvacuous :
+  let cores := [mk [1; 2; 1]%nat [1; 0]; mk [1; 2; 1]%nat [2; 0]] in
+  bonds 1 cores 1 /\ length cores = ndim ey_M /\
+  svd_sorted_contract (x_unfolding ey_M 1) 2 2 1 ey_a /\
+  ey_for (x_unfolding ey_M 1) (prod (firstn 1 (shape ey_M))) (prod (skipn 1 (shape ey_M)))
+         (nth 2 (shape (nth (1 - 1) cores (mk [] []))) 0%nat) ey_a /\
+  tail2 Rops 1 (snd3 ey_a) <= tt_err2 Rops ey_M cores.
+Proof.
+  intros cores. split; [cbn; auto|]. split; [reflexivity|]. split; [exact ey_instance_contract|].
+  split; [exact ey_instance_holds|].
+  change (tail2 Rops (nth 2 (shape (nth (1 - 1) cores (mk [] []))) 0%nat) (snd3 ey_a) <= tt_err2 Rops ey_M cores).
+  apply (chain_cores_error_lower_local ey_M cores 1%nat ey_a); [cbn; auto | reflexivity | lia | cbn; lia | exact ey_instance_holds].
 Qed.
 
 (* the actual truncation ranks of the run *)
